@@ -131,6 +131,13 @@ def canonical_key(R, ctx):
             q = lib.fn(callee_of(y) or "")
             if q is not None and thir.body_of(q) and y.get("fname") != "find_require_path" and len(q["thir"].get("params", [])) == 1:
                 cands.append(q)
+            # a function VALUE applied on the way: `.map(normalize_path)`
+            for a_ in y.get("args", [])[1:]:
+                for z in thir.walk(a_):
+                    if z.get("k") == "Zst" and "fn" in z:
+                        q2 = lib.fn(z["fn"])
+                        if q2 is not None and thir.body_of(q2) and len(q2["thir"].get("params", [])) == 1:
+                            cands.append(q2)
         good = None
         for q in cands:
             ok = True
@@ -194,16 +201,30 @@ def errors(R, ctx):
     if R.require(rid, "anchor:try_inline_call", fn is not None, "", "not found"):
         a = ctx.an.fa(fn["path"])
         n = 0
+        # the places where an error is handled: `Err(..)` match arms, `if let Err(..)` branches, and the closures given to
+        # map_err / or_else / unwrap_or_else / inspect_err on a Result
+        handlers = []
         for m in thir.walk(thir.body_of(fn)):
-            if m.get("k") != "Match":
-                continue
-            for arm in m["arms"]:
-                if any(v == "Err" and adt.endswith("Result") for adt, v in thir.pat_variants(arm["pat"])):
-                    n += 1
-                    pushed = any(c.get("k") == "Call" and c.get("fname") == "push" and any(x[1] in err_fields for x in a.origins(c["args"][0]) if x[0] == RPP)
-                                 for c in thir.walk(arm["body"]))
-                    R.ob(rid, "try_inline_call|err-arm-recorded@%d" % n, pushed, ctx.where(fn, arm.get("l")), "error pushed onto self.errors: %s" % pushed)
-        R.require(rid, "try_inline_call|floor", n >= 1, ctx.where(fn), "%d Err arms" % n)
+            if m.get("k") == "Match":
+                for arm in m["arms"]:
+                    if any(v == "Err" and adt.endswith("Result") for adt, v in thir.pat_variants(arm["pat"])):
+                        handlers.append((arm["body"], arm.get("l")))
+            elif m.get("k") == "If" and m.get("cond", {}).get("k") == "Let" and any(v == "Err" and adt.endswith("Result") for adt, v in thir.pat_variants(m["cond"]["pat"])):
+                handlers.append((m["then"], m.get("ln")))
+            elif m.get("k") == "Call" and m.get("fname") in ("map_err", "or_else", "unwrap_or_else", "inspect_err") and m["args"] and \
+                    lib.ty_str(lib.strip_refs(m["args"][0]["t"])).startswith("core::result::Result<"):
+                for a_ in m["args"][1:]:
+                    x_ = a_
+                    while x_.get("k") in ("Borrow", "Use", "Scope", "Coerce") and "e" in x_:
+                        x_ = x_["e"]
+                    if x_.get("k") == "Closure" and x_.get("body"):
+                        handlers.append((x_["body"]["body"], m.get("ln")))
+        for body, ln in handlers:
+            n += 1
+            pushed = any(c.get("k") == "Call" and c.get("fname") == "push" and c["args"] and any(x[1] in err_fields for x in a.origins(c["args"][0]) if x[0] == RPP)
+                         for c in thir.walk(body))
+            R.ob(rid, "try_inline_call|err-arm-recorded@%d" % n, pushed, ctx.where(fn, ln), "error pushed onto self.errors: %s" % pushed)
+        R.require(rid, "try_inline_call|floor", n >= 1, ctx.where(fn), "%d error handlers" % n)
     fn = lib.fn(RPP + "::apply")
     if R.require(rid, "anchor:apply", fn is not None, "", "not found"):
         ok_arms = []
